@@ -377,6 +377,22 @@ func init() {
 					n.ValidatorMode = true
 				}
 			})
+			// a share of the runs enumerates every restart point (and, thorough, every pair) of a short history
+			if r.Intn(5) == 0 {
+				sc.Params = map[string]int64{"c09_enum": 1}
+				n := 14 + r.Intn(14)
+				if tier == "thorough" {
+					n = 24 + r.Intn(16)
+					sc.Params["c09_pairs"] = 1
+				}
+				if len(sc.Blocks) > n {
+					sc.Blocks = sc.Blocks[:n]
+				}
+				for i := range sc.Blocks {
+					sc.Blocks[i].Restart = false
+				}
+				return sc
+			}
 			// bias: back-to-back restarts and restart right after blocks that create in-flight state
 			sc.Blocks[0].Restart = false
 			for i := range sc.Blocks {
@@ -389,19 +405,123 @@ func init() {
 			}
 			return sc
 		},
-		Monitors: func(sc *Scenario) []Monitor { return []Monitor{&MonC09{}} },
+		Monitors: func(sc *Scenario) []Monitor {
+			if sc.Params["c09_enum"] == 1 {
+				return []Monitor{&MonC09Enum{Pairs: sc.Params["c09_pairs"] == 1}}
+			}
+			return []Monitor{&MonC09{}}
+		},
 		Distinct: func(w *World) []string {
+			var out []string
 			for _, m := range w.Monitors {
 				if c, ok := m.(*MonC09); ok {
-					var out []string
 					for k := range c.classes {
 						out = append(out, k)
 					}
-					return out
+				}
+				if c, ok := m.(*MonC09Enum); ok {
+					for k := range c.classes {
+						out = append(out, "enum/"+k)
+					}
 				}
 			}
-			return nil
+			return out
 		},
-		ExpectProbes: []string{"c09_block_compared", "c09_deep_compare"},
+		ExpectProbes: []string{"c09_block_compared", "c09_deep_compare", "c09_enumerated_restart_schedule"},
 	})
+}
+
+// MonC09Enum (thorough tier): on a short reference history every single restart point and every pair of
+// restart points is executed: a fresh node over the reference's disk of height i continues to j, is
+// restarted again and continues to the end; every block must match the reference and the durable state
+// at the end must be equal.
+type MonC09Enum struct {
+	NopMonitor
+	classes map[string]bool
+	Pairs   bool
+}
+
+func (m *MonC09Enum) Genesis(w *World) {
+	w.KeepLogs, w.KeepDisks = true, true
+	m.classes = map[string]bool{}
+}
+
+func (m *MonC09Enum) runFrom(w *World, i, j int) bool {
+	n := len(w.ReqLog)
+	hi := w.ReqLog[i].Height // restart after block i (height hi)
+	t := &Twin{Disk: w.DiskAt[hi].Clone(), Cfg: w.Sc.Node}
+	node, cerr := OpenNode(t.Disk, t.Cfg)
+	if cerr != nil {
+		w.Report("C07", "no-panic", "restart:"+cerr.Call+"@"+cerr.Site, cerr.Error(), hi)
+		return false
+	}
+	t.Node = node
+	defer func() { t.Node.Release() }()
+	restarts := 1
+	for k := i + 1; k < n; k++ {
+		if k == j+1 && j > i {
+			if cerr := t.Restart(); cerr != nil {
+				w.Report("C07", "no-panic", "restart:"+cerr.Call+"@"+cerr.Site, cerr.Error(), w.ReqLog[k].Height)
+				return false
+			}
+			restarts = 2
+		}
+		res := t.Node.ExecBlock(w.ReqLog[k], nil)
+		if cls, d := CompareBlock(&w.ResLog[k], &res); cls != "" {
+			w.Sc.Params["c09_i"], w.Sc.Params["c09_j"] = int64(i), int64(j)
+			w.Report("C09", "restart-equivalence", cls, fmt.Sprintf("enumeration: restart after block %d%s, block %d: %s", hi, secondRestart(w, i, j), w.ReqLog[k].Height, d), w.ReqLog[k].Height)
+			return false
+		}
+	}
+	last := w.ReqLog[n-1].Height
+	var evh []uint64
+	for k := i + 1; k < n; k++ {
+		evh = append(evh, uint64(w.ReqLog[k].Height))
+	}
+	if ref := w.DiskAt[last]; ref != nil {
+		if cls, d := DiskStateDiff(ref, t.Disk, uint64(last), evh, !w.Sc.Node.ValidatorMode); cls != "" {
+			w.Sc.Params["c09_i"], w.Sc.Params["c09_j"] = int64(i), int64(j)
+			w.Report("C09", "restart-equivalence", "disk-"+cls, fmt.Sprintf("enumeration: restart after block %d%s, at the end (height %d): %s", hi, secondRestart(w, i, j), last, d), last)
+			return false
+		}
+	}
+	m.classes[fmt.Sprintf("phase%d/n%d", uint64(hi)%w.Sc.Node.Period, restarts)] = true
+	w.Probe("c09_enumerated_restart_schedule")
+	w.Fault("restart")
+	return true
+}
+
+func secondRestart(w *World, i, j int) string {
+	if j > i {
+		return fmt.Sprintf(" and again after block %d", w.ReqLog[j].Height)
+	}
+	return ""
+}
+
+func (m *MonC09Enum) Finish(w *World) {
+	n := len(w.ReqLog)
+	if n < 3 {
+		return
+	}
+	if w.Sc.Params == nil {
+		w.Sc.Params = map[string]int64{}
+	}
+	if pi, ok := w.Sc.Params["c09_i"]; ok { // replay of one schedule
+		m.runFrom(w, int(pi), int(w.Sc.Params["c09_j"]))
+		return
+	}
+	for i := 0; i < n-1; i++ {
+		if !m.runFrom(w, i, -1) {
+			return
+		}
+	}
+	if m.Pairs {
+		for i := 0; i < n-2; i++ {
+			for j := i + 1; j < n-1; j++ {
+				if !m.runFrom(w, i, j) {
+					return
+				}
+			}
+		}
+	}
 }
